@@ -11,6 +11,7 @@ package scheduler
 //@ func (*InMemoryBuildQueue).enter
 //@   props C14
 //@   lockeffect bq.lock +1
+//@   havoc F:pkg/scheduler.worker.terminating -- while the lock was not held another thread (TerminateWorkers, worker clean-up) may have marked workers as terminating
 //@ func (*InMemoryBuildQueue).leave
 //@   props C14
 //@   lockeffect bq.lock -1
@@ -109,3 +110,16 @@ package scheduler
 //@   ensures moved-queue-resolves-to-the-freed-slot:
 //@             len(pq.sizeClasses) == 0 && lastPQ != pq && lastPQ.platformKey != pq.platformKey ==>
 //@             triemap[bq.platformQueuesTrie][lastPQ.platformKey] == index + 1 && bq.platformQueues[index] == lastPQ
+
+// A worker that is terminating (and therefore counts as drained) is never
+// handed a new task, also not after it slept with the lock released: the
+// drained flag the decision uses was computed after the lock was last taken.
+//@ func (*worker).isDrained
+//@   props C05
+//@   pure
+//@   ensures terminating-workers-count-as-drained: w.terminating ==> r0
+//@ func (*worker).getNextTask
+//@   props C05
+//@   loop 0 invariant flag-is-not-stale: (!isDrained ==> !w.terminating) && w == old(w) && scq == old(scq) && bq == old(bq)
+//@   at call assignNextQueuedTask#1 assert never-hands-work-to-a-terminating-worker: !w.terminating
+//@   at call assignNextQueuedTask#2 assert never-hands-work-to-a-terminating-worker: !w.terminating
